@@ -62,10 +62,12 @@ var ErrInvalidHuffman = errors.New("hpack: invalid Huffman-encoded data")
 // maxLen bytes will return ErrStringLength.
 func huffmanDecode(buf *bytes.Buffer, maxLen int, v []byte) error {
 	n := rootHuffmanNode
-	cur, nbits := uint(0), uint8(0)
+	// sbits is the number of bits read since the last complete symbol.
+	cur, nbits, sbits := uint(0), uint8(0), uint8(0)
 	for _, b := range v {
 		cur = cur<<8 | uint(b)
 		nbits += 8
+		sbits += 8
 		for nbits >= 8 {
 			idx := byte(cur >> (nbits - 8))
 			n = n.children[idx]
@@ -79,6 +81,7 @@ func huffmanDecode(buf *bytes.Buffer, maxLen int, v []byte) error {
 				buf.WriteByte(n.sym)
 				nbits -= n.codeLen
 				n = rootHuffmanNode
+				sbits = nbits
 			} else {
 				nbits -= 8
 			}
@@ -86,12 +89,24 @@ func huffmanDecode(buf *bytes.Buffer, maxLen int, v []byte) error {
 	}
 	for nbits > 0 {
 		n = n.children[byte(cur<<(8-nbits))]
+		if n == nil {
+			return ErrInvalidHuffman
+		}
 		if n.children != nil || n.codeLen > nbits {
 			break
 		}
 		buf.WriteByte(n.sym)
 		nbits -= n.codeLen
 		n = rootHuffmanNode
+		sbits = nbits
+	}
+	if sbits > 7 {
+		// An incomplete symbol or more than 7 bits of padding (RFC 7541 section 5.2).
+		return ErrInvalidHuffman
+	}
+	if mask := uint(1<<nbits - 1); cur&mask != mask {
+		// The padding must be a prefix of EOS (RFC 7541 section 5.2).
+		return ErrInvalidHuffman
 	}
 	return nil
 }
